@@ -14,4 +14,6 @@ def run(ctx):
     s = ctx['seed'] + 17
     return run_parts(ctx, [
         Part('profiler', 'corr_prof', 'run', [s, 250 if q else 4000]),
+        Part('mixed_missing', 'corr_prof', 'run_mixed', [s, 60 if q else 800]),
+        Part('profiler_code', 'corr_profgen', 'run', [s, 60 if q else 1500], count_exceptions=False),
     ], RULE)
